@@ -29,6 +29,7 @@ macro "good_step" : tactic => `(tactic| with_reducible (first
   | exact good_getRT
   | exact good_letVar _ _
   | exact good_setBlocks _
+  | exact good_letGlobal _ _
   | exact good_setValue _ _
   | exact good_getBlock _
   | exact good_resolve _ _
@@ -131,6 +132,35 @@ theorem good_execBuiltin (hr : RecGood r) (env : Env) (isExec : Bool) (a : Args)
   unfold execBuiltin
   good_tac [hg, hl]
 
+theorem good_yieldBlockApi (hr : RecGood r) (env : Env) (name : Bytes) (ctx : Val) :
+    Good (yieldBlockApi r env name ctx) := by
+  have hl := hr.execList env
+  unfold yieldBlockApi
+  good_tac [hl]
+
+theorem good_recsetLoop (hr : RecGood r) (env : Env) (a : Args) :
+    ∀ fuel i acc, Good (recsetLoop r env a fuel i acc) := by
+  have hs := good_Args_isSet hr env a
+  intro fuel
+  induction fuel with
+  | zero => intro i acc; unfold recsetLoop; good_tac
+  | succ f ih => intro i acc; unfold recsetLoop; good_tac [hs, ih]
+
+theorem good_parse3Func (hr : RecGood r) (env : Env) (a : Args) : Good (parse3Func r env a) := by
+  have hg := good_Args_get hr env a
+  unfold parse3Func
+  good_tac [hg]
+
+theorem good_applyApiFunc (hr : RecGood r) (env : Env) (id : String) (a : Args) :
+    Good (applyApiFunc r env id a) := by
+  have hg := good_Args_get hr env a
+  have hy := good_yieldBlockApi hr env
+  have hrs := good_recsetLoop hr env a
+  have hp := good_parse3Func hr env a
+  unfold applyApiFunc
+  dsimp only
+  good_tac [hg, hy, hrs, hp]
+
 set_option maxHeartbeats 1600000 in
 theorem good_applyJetFunc (hr : RecGood r) (env : Env) (id : String) (a : Args) :
     Good (applyJetFunc r env id a) := by
@@ -140,9 +170,10 @@ theorem good_applyJetFunc (hr : RecGood r) (env : Env) (id : String) (a : Args) 
   have h3 := good_mapLoop hr env a
   have h4 := good_recLoop hr env a
   have h5 := good_execBuiltin hr env
+  have h6 := good_applyApiFunc hr env
   unfold applyJetFunc
   dsimp only
-  repeat (first | split | good_step | (with_reducible apply hg) | (with_reducible apply h1) | (with_reducible apply h2) | (with_reducible apply h3) | (with_reducible apply h4) | (with_reducible apply h5))
+  repeat (first | split | good_step | (with_reducible apply hg) | (with_reducible apply h1) | (with_reducible apply h2) | (with_reducible apply h3) | (with_reducible apply h4) | (with_reducible apply h5) | (with_reducible apply h6))
 
 theorem good_modify_log (f : List LogE → List LogE) :
     Good (modifyRT fun rt => { rt with log := f rt.log }) := by
